@@ -480,9 +480,23 @@ pub fn machine_histories(tier: Tier) -> Vec<(String, Vec<Op>)> {
 pub fn run(tier: Tier) -> i32 {
     let mut run = Run::new("C17", tier, "model_checking");
     let depth = tier.pick(4usize, 5);
-    run.rule = format!("model: pool of {SLOTS} value handles + 1 filter handle; ~35 constructors (every kind; valid, invalid and non-UTF-8 arguments; from Zinc / JSON text; from other handles: utc/tz datetime, grid from rows with/without meta) and every list/dict/grid/datetime/filter operation over slot indices, list index {{0,1,7}}, keys {{a,b,invalid UTF-8}}, 5 filter texts. BFS over canonical model states to depth {depth}; every transition = one real extern \"C\" call on a real pool rebuilt by replaying the state's shortest history; after every step: return value = model (documented sentinel on failure), error message retrievable exactly once iff failure, whole pool deep-equal to the model (failure leaves all handles unchanged), borrowed entry pointers dereferenced immediately; after the last step every live handle is inspected with all 18 predicates and 35 getters incl. to_zinc_string / to_json_string against the Rust encoders. Symmetric states merged by constructing into the first free slot; plus three focused machines searched over canonical states — a list (three values pushed, set, removed, read at every index 0..3, the list into itself; depth 5/6), a dict (camelCase, empty, non-ASCII, blank-containing, 300-byte and invalid keys, overwriting, the dict into itself; depth 3/4), a date + time pair (utc / tz constructors with good and bad zones between failing calls, date / time getters into every handle; depth 4/5), a four-row sparse grid (rows into a fresh handle, a dict handle and the grid itself, two filters, first/all matches into every handle; depth 3/4) — and 51 exotic values (interior NUL in every string position, 210 kB and non-ASCII strings, extreme numbers, dates, times, coordinates, multi-alias units) alone, in a list and in a dict, every live handle inspected with all getters after every step; twins — values that == cannot tell apart but a user can (display name of a ref, sign of zero with and without unit and in a Coord, the zone of an instant), bare and inside a dict / list / grid / nested dict — where one overwrites the other by set-at, insert under the same key, push+set, and as rows of a grid (~320 histories); all machine histories and every history of <= 3 calls of the general alphabet once more with a caller that never fetches the error message between calls (same return values, same pool); borrowed entry pointers re-read after every read-only call on their container, every string getter called twice with both results destroyed; plus one sweep of every string argument of every function with bytes that are not UTF-8 (sentinel, message, arguments unchanged)");
+    run.rule = format!("model: pool of {SLOTS} value handles + 1 filter handle; ~35 constructors (every kind; valid, invalid and non-UTF-8 arguments; from Zinc / JSON text; from other handles: utc/tz datetime, grid from rows with/without meta) and every list/dict/grid/datetime/filter operation over slot indices, list index {{0,1,7}}, keys {{a,b,invalid UTF-8}}, 5 filter texts. BFS over canonical model states to depth {depth}; every transition = one real extern \"C\" call on a real pool rebuilt by replaying the state's shortest history; after every step: return value = model (documented sentinel on failure), error message retrievable exactly once iff failure, whole pool deep-equal to the model (failure leaves all handles unchanged), borrowed entry pointers dereferenced immediately; after the last step every live handle is inspected with all 18 predicates and 35 getters incl. to_zinc_string / to_json_string against the Rust encoders. Symmetric states merged by constructing into the first free slot; plus three focused machines searched over canonical states — a list (three values pushed, set, removed, read at every index 0..3, the list into itself; depth 5/6), a dict (camelCase, empty, non-ASCII, blank-containing, 300-byte and invalid keys, overwriting, the dict into itself; depth 3/4), a date + time pair (utc / tz constructors with good and bad zones between failing calls, date / time getters into every handle; depth 4/5), a four-row sparse grid (rows into a fresh handle, a dict handle and the grid itself, two filters, first/all matches into every handle; depth 3/4) — and 51 exotic values (interior NUL in every string position, 210 kB and non-ASCII strings, extreme numbers, dates, times, coordinates, multi-alias units) alone, in a list and in a dict, every live handle inspected with all getters after every step; twins — values that == cannot tell apart but a user can (display name of a ref, sign of zero with and without unit and in a Coord, the zone of an instant), bare and inside a dict / list / grid / nested dict — where one overwrites the other by set-at, insert under the same key, push+set, and as rows of a grid (~320 histories); all machine histories and every history of <= 3 calls of the general alphabet once more with a caller that never fetches the error message between calls (same return values, same pool); borrowed entry pointers re-read after every read-only call on their container, every string getter called twice with both results destroyed; plus the thread sweep (two strictly serialised threads: A fails, B does nothing / fails / fails and fetches / succeeds / fetches, A fetches — 5 x 5 failing calls x 5 modes; a thread that failed and exited leaves nothing for later threads: the error slot is per thread); plus one sweep of every string argument of every function with bytes that are not UTF-8 (sentinel, message, arguments unchanged)");
     run.assume("the model is written from the header documentation and the Rust API (Appendix C); equal model pools have equal futures (the API has no other state than the handles and the thread-local last error)");
     crate::engine::quiet_panics();
+    // the last-error slot is per thread: decided first, on two strictly serialised threads (the
+    // exploration below drives the API from many threads and relies on it)
+    run.stats.evals += 1;
+    match guarded(crate::model::capi::thread_sweep) {
+        Ok(Ok(n)) => run.stats.count_n("thread-sweep-calls", n),
+        Ok(Err(e)) => {
+            run.stats.fail("capi:error-slot-not-per-thread", json!({"thread_sweep": true}), e);
+            return run.finish(&replay);
+        }
+        Err(p) => {
+            run.stats.fail("capi:error-slot-not-per-thread:panic", json!({"thread_sweep": true}), p);
+            return run.finish(&replay);
+        }
+    }
     let (search, l) = bfs(depth, tier.pick(1_500_000, 6_000_000), &visit);
     run.absorb(l);
     run.stats.states = search.states.len() as u64;
@@ -598,6 +612,13 @@ pub fn replay(case: &J) -> Verdict {
             }
         }
         return Err(("replay-machine-unknown".into(), name.to_string()));
+    }
+    if case["thread_sweep"] == true {
+        return match guarded(crate::model::capi::thread_sweep) {
+            Ok(Ok(_)) => Ok(()),
+            Ok(Err(e)) => Err(("capi:error-slot-not-per-thread".into(), e)),
+            Err(p) => Err(("capi:error-slot-not-per-thread:panic".into(), p)),
+        };
     }
     if case["borrow_sweep"] == true {
         return match guarded(|| unsafe { crate::model::capi::borrow_sweep() }) {
